@@ -41,7 +41,7 @@ EstOrder(solver) == CASE solver = "rk45" -> 4 [] solver = "rk23" -> 2 [] solver 
                       [] solver = "adams3" -> 2 [] solver = "bdf6" -> 5 [] solver = "bdf2" -> 1 [] OTHER -> 1
 \* evaluations allowed: KW * (L/dtmax + L * tol^(-1/p)) + 200     (KW is a wide constant: it has to
 \* separate the 10^3-fold defects from honest variation, not resolve factors of two)
-KW == 400
+KW == 100
 WorkBound(c) ==
   LET L == FSub(c.t1, c.t0)
       p == EstOrder(c.solver)
